@@ -286,7 +286,6 @@ theorem ubLoop_sim (c : Board.Case) (u : UbCfg) (start : Nat) (hcap : ∀ T', u.
             simp only [accept, wait, ubT_eq h.cfg, hnone, ht0']
             rw [ht0'] at hcapd
             simp [hcapd]
-            rfl
           · rw [if_neg hcapd]
             rw [hnow3] at hcapd
             have hp := poll_pos
